@@ -29,6 +29,7 @@ func runC09(c *Ctx) {
 	c.Rule("R9.5", 20, "the combinator grammar equals the documented pattern grammar rule by rule")
 	checkRegexGrammarDocs(c, "R9.5")
 	checkClassPresence(c, "R9.2")
+	checkRuneHelperResults(c, "R9.2")
 
 	pp := c.Pkg("internal/regex/parser")
 	if pp == nil {
